@@ -324,14 +324,39 @@ def wf_case(c):
 
 
 # ------------------------------------------------------------------ execution
+def setup():
+    """build the extracted model driver (bin/check --setup calls this; main builds lazily through the same function)"""
+    if not have_model():
+        return None
+    exe, _ = build_model(PROP, "ExtractC07.v", os.path.join(ROOT, "ocaml/c07"), MODEL_DEPS)
+    return exe
+
+
+def run_dir():
+    """private per process: two checks running at the same time must not share case/output files"""
+    d = os.path.join(BUILD, "run", "c07", "p%d" % os.getpid())
+    os.makedirs(d, exist_ok=True)
+    return d
+
+
+def cleanup_run_dir(keep=False):
+    import shutil
+    base = os.path.join(BUILD, "run", "c07")
+    if not keep:
+        shutil.rmtree(os.path.join(base, "p%d" % os.getpid()), ignore_errors=True)
+    if os.path.isdir(base):
+        for n in os.listdir(base):
+            if n.startswith("p") and n[1:].isdigit() and not os.path.exists("/proc/" + n[1:]):
+                shutil.rmtree(os.path.join(base, n), ignore_errors=True)
+
+
 def have_model():
     return os.path.exists(os.path.join(COQ, "extract", "ExtractC07.v")) and os.path.exists(os.path.join(ROOT, "ocaml/c07/driver.ml")) \
         and os.path.exists(os.path.join(COQ, "theories", "Merge.v"))
 
 
 def execute(cases, tag, exe=None, timeout=900, model_cases=None):
-    d = os.path.join(BUILD, "run", "c07")
-    os.makedirs(d, exist_ok=True)
+    d = run_dir()
     cf = os.path.join(d, "cases_%s.txt" % tag)
     with open(cf, "w") as f:
         for c in cases:
@@ -340,7 +365,7 @@ def execute(cases, tag, exe=None, timeout=900, model_cases=None):
     for p in (iout, mout):
         if os.path.exists(p):
             os.remove(p)
-    ov = go_overlay(HARNESS, "c07")
+    ov = go_overlay(HARNESS, "c07_p%d" % os.getpid())
     t0 = time.time()
     rc, out, _ = go_test("./internal/index/", ov, "^TestVerifC07$", {"VERIF_CASES": cf, "VERIF_OUT": iout}, timeout=timeout)
     tgo = time.time() - t0
@@ -399,10 +424,8 @@ def minimise(c, kind, what, exe):
 
 def main(tier, seed, replay=None):
     t0 = time.time()
-    proof = Proof(PROP) if os.path.exists(os.path.join(COQ, "props", "C07.v")) else None
-    exe = None
-    if have_model():
-        exe, _ = build_model(PROP, "ExtractC07.v", os.path.join(ROOT, "ocaml/c07"), MODEL_DEPS)
+    proof = Proof(PROP, tier=tier)
+    exe = setup()
     rng = random.Random(seed)
     cases = []
     if replay:
@@ -444,7 +467,7 @@ def main(tier, seed, replay=None):
         c = cases[0]
         print("input files:", [[s["id"] for s in f] for f in c["files"]])
         print("judgement:", judge(c, impl.get(c["name"], []), model.get(c["name"]) if model else None))
-        print("impl output:", os.path.join(BUILD, "run", "c07", "impl_main.out"))
+        print("impl output:", os.path.join(run_dir(), "impl_main.out"))
     for k, (c, det) in first_bad.items():
         cm = minimise(c, k, det.get("what"), exe) if not replay else c
         im, mo, _, _ = execute([cm], "rep", exe, timeout=300)
@@ -491,4 +514,5 @@ def main(tier, seed, replay=None):
     write_evidence(PROP, tier, seed, cov,
                    ["every input file satisfies wf_input of C01", "absolute times between 1970 and 2262"],
                    time.time() - t0, nviol)
+    cleanup_run_dir(keep=bool(nviol) or bool(replay))
     return 1 if nviol else 0
